@@ -231,8 +231,8 @@ fn run_shape(text: &str) -> Vec<(String, Vec<Ev>)> {
 // ---------------------------------------------------------------------------------------
 // (3) recursion-depth probes
 
-pub const ROUTES: [&str; 8] = [
-    "paren", "neg_paren", "not_paren", "abs", "array", "fn", "if_then", "eq_chain",
+pub const ROUTES: [&str; 11] = [
+    "paren", "neg_paren", "not_paren", "abs", "array", "fn", "if_then", "eq_chain", "fn_recursive_paren", "fn_recursive_args", "if_then_paren",
 ];
 
 pub fn nested_line(route: &str, depth: usize) -> (Vec<String>, String) {
@@ -248,6 +248,16 @@ pub fn nested_line(route: &str, depth: usize) -> (Vec<String>, String) {
             format!("X={}1{}", "FNA(".repeat(depth), ")".repeat(depth)),
         ),
         "if_then" => (vec![], format!("{}X=1", "IF 1 THEN ".repeat(depth))),
+        // a recursive function whose body is itself nested `depth` deep: frames x nesting
+        "fn_recursive_paren" => (
+            vec![format!("10 DEF FNR(X)={}FNR(X){}", "(".repeat(depth), ")".repeat(depth)), "RUN".to_string()],
+            "X=FNR(1)".to_string(),
+        ),
+        "fn_recursive_args" => (
+            vec![format!("10 DEF FNR(X)={}FNR(X){}", "ABS(".repeat(depth), ")".repeat(depth)), "20 DEF FNS(X)=FNR(FNS(X))".to_string(), "RUN".to_string()],
+            "X=FNS(1)".to_string(),
+        ),
+        "if_then_paren" => (vec![], format!("{}X={}1{}", "IF 1 THEN ".repeat(depth), "(".repeat(depth), ")".repeat(depth))),
         _ => (vec![], format!("X=1{}", "=1".repeat(depth))),
     }
 }
@@ -299,7 +309,7 @@ pub fn child_main(args: &[String]) -> i32 {
 }
 
 pub fn depth_grid() -> Vec<usize> {
-    vec![10, 100, 1000, 3000, 10000, 30000, 100000]
+    vec![10, 30, 60, 100, 1000, 3000, 10000, 30000, 100000]
 }
 
 /// Runs the probe grid; returns (children run, violations).
